@@ -84,3 +84,66 @@ int ref_lz4_decode(const uint8_t* in, size_t n, uint8_t* out, size_t cap, size_t
     }
     *out_n = op; return 0;
 }
+
+/* ---- greedy reference compressors (real matches), written from lz4_Block_format.md and the Snappy format description ----
+ * Candidates for a match at position i: the last earlier occurrence of the same 4 bytes (hash table) and every distance 1..40
+ * (short periods: equal or cycling fixed-width values). The longest candidate wins. Output is checked by the strict decoders by the caller. */
+static size_t ref_match_len(const uint8_t* in, size_t a, size_t b, size_t limit) { size_t l = 0; while (b + l < limit && in[a + l] == in[b + l]) l++; return l; }
+static uint32_t ref_h4(const uint8_t* p) { uint32_t v = (uint32_t)p[0] | (uint32_t)p[1] << 8 | (uint32_t)p[2] << 16 | (uint32_t)p[3] << 24; return (v * 2654435761u) >> 18; }
+static size_t ref_best_match(const uint8_t* in, size_t i, size_t limit, const uint32_t* tab, size_t maxoff, size_t* off) {
+    size_t best = 0; *off = 0;
+    for (size_t d = 1; d <= 40 && d <= i; d++) { size_t l = ref_match_len(in, i - d, i, limit); if (l > best) { best = l; *off = d; } }
+    if (i + 4 <= limit) { uint32_t c = tab[ref_h4(in + i)]; if (c && (size_t)(c - 1) < i && i - (c - 1) <= maxoff) { size_t l = ref_match_len(in, c - 1, i, limit); if (l > best) { best = l; *off = i - (c - 1); } } }
+    return best;
+}
+int ref_lz4_compress_greedy(const uint8_t* in, size_t n, ref_buf* out) {
+    static uint32_t tab[1 << 14]; memset(tab, 0, sizeof tab);
+    size_t i = 0, anchor = 0;
+    size_t last_match_start = n >= 12 ? n - 12 : 0, match_end_limit = n >= 5 ? n - 5 : 0;    /* the last match starts at least 12 bytes before the end; the last 5 bytes are literals */
+    while (n >= 13 && i <= last_match_start) {
+        size_t off, l = ref_best_match(in, i, match_end_limit, tab, 65535, &off);
+        if (i + 4 <= n) tab[ref_h4(in + i)] = (uint32_t)i + 1;
+        if (l < 4) { i++; continue; }
+        size_t lit = i - anchor, ml = l - 4;
+        ref_buf_u8(out, (uint8_t)(((lit >= 15 ? 15 : lit) << 4) | (ml >= 15 ? 15 : ml)));
+        if (lit >= 15) { size_t v = lit - 15; while (v >= 255) { ref_buf_u8(out, 255); v -= 255; } ref_buf_u8(out, (uint8_t)v); }
+        ref_buf_put(out, in + anchor, lit);
+        ref_buf_u8(out, (uint8_t)off); ref_buf_u8(out, (uint8_t)(off >> 8));
+        if (ml >= 15) { size_t v = ml - 15; while (v >= 255) { ref_buf_u8(out, 255); v -= 255; } ref_buf_u8(out, (uint8_t)v); }
+        for (size_t k = 1; k < l && i + k + 4 <= n; k += 3) tab[ref_h4(in + i + k)] = (uint32_t)(i + k) + 1;
+        i += l; anchor = i;
+    }
+    size_t lit = n - anchor;
+    ref_buf_u8(out, (uint8_t)((lit >= 15 ? 15 : lit) << 4));
+    if (lit >= 15) { size_t v = lit - 15; while (v >= 255) { ref_buf_u8(out, 255); v -= 255; } ref_buf_u8(out, (uint8_t)v); }
+    ref_buf_put(out, in + anchor, lit);
+    return 0;
+}
+static void ref_snappy_literal(ref_buf* out, const uint8_t* p, size_t len) {
+    if (!len) return; size_t m = len - 1;
+    if (len <= 60) ref_buf_u8(out, (uint8_t)(m << 2)); else { int nb = m < 0x100 ? 1 : m < 0x10000 ? 2 : m < 0x1000000 ? 3 : 4; ref_buf_u8(out, (uint8_t)((59 + nb) << 2)); for (int k = 0; k < nb; k++) ref_buf_u8(out, (uint8_t)(m >> (8 * k))); }
+    ref_buf_put(out, p, len);
+}
+int ref_snappy_compress_greedy(const uint8_t* in, size_t n, ref_buf* out) {
+    static uint32_t tab[1 << 14]; memset(tab, 0, sizeof tab);
+    ref_buf_uleb(out, n);
+    size_t i = 0, anchor = 0;
+    while (i + 4 <= n) {
+        size_t off, l = ref_best_match(in, i, n, tab, (size_t)-1, &off);
+        tab[ref_h4(in + i)] = (uint32_t)i + 1;
+        if (l < 4) { i++; continue; }
+        ref_snappy_literal(out, in + anchor, i - anchor);
+        size_t rest = l;
+        while (rest) {
+            size_t c = rest > 64 ? 64 : rest; if (rest > 64 && rest - 64 < 4) c = 60;           /* keep every piece >= 4 bytes, as the format's compressors do */
+            if (c >= 4 && c <= 11 && off < 2048) { ref_buf_u8(out, (uint8_t)(1 | ((c - 4) << 2) | ((off >> 8) << 5))); ref_buf_u8(out, (uint8_t)off); }
+            else if (off < 65536) { ref_buf_u8(out, (uint8_t)(2 | ((c - 1) << 2))); ref_buf_u8(out, (uint8_t)off); ref_buf_u8(out, (uint8_t)(off >> 8)); }
+            else { ref_buf_u8(out, (uint8_t)(3 | ((c - 1) << 2))); for (int k = 0; k < 4; k++) ref_buf_u8(out, (uint8_t)(off >> (8 * k))); }
+            rest -= c;
+        }
+        for (size_t k = 1; k < l && i + k + 4 <= n; k += 3) tab[ref_h4(in + i + k)] = (uint32_t)(i + k) + 1;
+        i += l; anchor = i;
+    }
+    ref_snappy_literal(out, in + anchor, n - anchor);
+    return 0;
+}
